@@ -47,7 +47,19 @@ impl EventStore {
 
         // Determine if we just created it
         // (not long enough for the required end offset)
-        let new = len < mem::size_of::<usize>();
+        let mut new = len < mem::size_of::<usize>();
+
+        // A process killed after the file was sized but before the end marker was
+        // initialised leaves a marker of zero, which is not a valid end (the marker
+        // itself occupies the first bytes). Such a file holds no events: treat it as new.
+        if !new {
+            use std::os::unix::fs::FileExt;
+            let mut marker = [0_u8; mem::size_of::<usize>()];
+            event_map_file.read_exact_at(&mut marker, 0)?;
+            if usize::from_le_bytes(marker) < mem::size_of::<usize>() {
+                new = true;
+            }
+        }
 
         // If brand new:
         if new {
